@@ -21,6 +21,7 @@ import (
 	"net/http"
 	"net/http/httptest"
 	"net/url"
+	"strings"
 	"sync"
 	"time"
 )
@@ -207,12 +208,17 @@ func init() {
 			// ---- C03 / C10: a login STARTED through one instance and COMPLETED (callback) through the other — the load balancer does not
 			// pin a browser to an instance: the login's own state and CSRF cookie complete it, and the session it yields is
 			// the same session on the first instance
-			for _, dir := range []string{"A-then-B", "B-then-A"} {
+			for di, dir := range []string{"A-then-B", "B-then-A", "A-then-B", "B-then-A"} {
 				nb := newBrowser()
 				var loc string
+				// (a short deep link, and one of several hundred bytes: where the user lands travels with the login, not with the instance)
+				wantLanding := "/landing?x=1"
+				if di >= 2 {
+					wantLanding = "/reports/2026/q3/export?columns=" + strings.Repeat("customer_id,region,net_revenue,", 24) + "&page=7"
+				}
 				if dir == "A-then-B" {
-					_, loc = a.startLogin(nb, "/landing?x=1")
-				} else if resp, err := rp.do(a.opts.ProxyPrefix+"/start?rd=%2Flanding%3Fx%3D1", "", nil); err == nil {
+					_, loc = a.startLogin(nb, wantLanding)
+				} else if resp, err := rp.do(a.opts.ProxyPrefix+"/start?rd="+url.QueryEscape(wantLanding), "", nil); err == nil {
 					nb.apply(resp)
 					loc = resp.Header.Get("Location")
 				}
@@ -242,8 +248,9 @@ func init() {
 						in(map[string]interface{}{"direction": dir, "status": status}))
 					continue
 				}
-				if landing != "/landing?x=1" {
-					c.violation("C06", "cross-instance login: the landing page differs from the plain same-site path requested", in(map[string]interface{}{"landing": landing}))
+				if landing != wantLanding {
+					c.violation("C06", "a login started through one instance and completed through the other: the user does not land on the plain same-site path and query requested before login, byte for byte",
+						in(map[string]interface{}{"requested": wantLanding, "landing": landing, "direction": dir, "requested_bytes": len(wantLanding)}))
 				}
 				for k := 0; k < 2; k++ {
 					if ok, _ := served(k, nb.cookieHeader()); !ok {
@@ -259,7 +266,8 @@ func init() {
 				sb := newBrowser()
 				lr2 := a.login(sb, u, "/")
 				loc := ""
-				if resp, err := rp.do(a.opts.ProxyPrefix+"/start?rd=%2Fafter-restart", "", nil); err == nil {
+				afterRestart := "/after-restart?tab=" + strings.Repeat("overview,", 70)
+				if resp, err := rp.do(a.opts.ProxyPrefix+"/start?rd="+url.QueryEscape(afterRestart), "", nil); err == nil {
 					nb.apply(resp)
 					loc = resp.Header.Get("Location")
 				}
@@ -286,8 +294,9 @@ func init() {
 					if status != 302 || !hasAnySessionCookie(nb, a.opts.Cookie.Name) {
 						c.violation("C03", "a login started before an instance was restarted (same configuration) and completed after it, with its own unmodified state and CSRF cookie, did not complete: status "+fmt.Sprint(status),
 							in(map[string]interface{}{"status": status}))
-					} else if landing != "/after-restart" {
-						c.violation("C06", "login across a restart: the landing page differs from the plain same-site path requested", in(map[string]interface{}{"landing": landing}))
+					} else if landing != afterRestart {
+						c.violation("C06", "a login started before an instance was restarted and completed after it: the user does not land on the plain same-site path and query requested before login",
+							in(map[string]interface{}{"requested": afterRestart, "landing": landing, "requested_bytes": len(afterRestart)}))
 					}
 				}
 				if lr2.OK {
